@@ -140,6 +140,8 @@ def equivariance(ctx, chk, tier):
 
 
 def run(ctx, chk, tier):
+    from . import c10 as _c10
+    _c10.copy_derivations(ctx, chk, rule="R08.1")   # objects derived by a shallow copy must not keep the parent's caches
     from . import c01 as _c01
     _c01.flag_identity(ctx, chk)   # direction flags: identity comparisons need BinaryLabel members on every construction path
     chk.rule_text = ("R08.1: field-by-field image of swap() for 2 classes x 4 configurations; R08.2: 32 cell identities between derived cm tables; "
